@@ -425,6 +425,11 @@ def parse_module(text):
                 if st2.startswith('switch') and st2.endswith('['):
                     while not st2.endswith(']'):
                         st2 += ' ' + lines[i].strip(); i += 1
+                if st2 == 'cleanup' or st2.startswith(('catch ', 'filter ')):
+                    continue    # clause lines of the preceding landingpad (exception paths are cut there)
+                # invoke: the "to label %a unwind label %b" part is on a continuation line
+                if re.match(r'^(%[-\w.$"]+ = )?invoke\b', st2) and ' to label ' not in st2 and lines[i].strip().startswith('to label'):
+                    st2 += ' ' + lines[i].strip(); i += 1
                 cur[1].append(tokenize(st2))
             mod.functions[f.name] = f
             continue
@@ -553,8 +558,13 @@ class Emitter:
             return fn.regname(data)
         if kind == 'global':
             g = cname(data)
-            if data in s.mod.functions or data in s.mod.declares:
+            if data in s.mod.functions:
+                s.need_fn.add(data)
                 return '((ptr_t)&%s)' % g
+            if data in s.mod.declares:
+                # address of an external function (e.g. a destructor handed to __cxa_throw): an opaque object
+                s.helper_code['extfn_' + g] = 'extern u8 EXTFN_%s[1];' % g
+                return '((ptr_t)EXTFN_%s)' % g
             return '((ptr_t)&g_%s)' % g
         if kind == 'iconst':
             if isinstance(ty, IntTy):
@@ -602,7 +612,9 @@ class Emitter:
                 return '((%s){{%s}})' % (ct, ', '.join(s.zero_or_nondet(ty.elem, True) for _ in range(ty.n)))
             return '((%s){{0}})' % ct
         if isinstance(ty, (ArrTy, StructTy)):
-            if undef: return 'nondet_%s()' % ct   # declared on demand
+            if undef:
+                s.helper_code['nondet_' + ct] = '%s nondet_%s(void);' % (ct, ct)
+                return 'nondet_%s()' % ct
             return '((%s){0})' % ct
         raise Unsupported("zero %r" % (ty,))
 
@@ -1273,7 +1285,9 @@ class FnEmitter:
         normal = None
         if invoke:
             # skip attrs until 'to'
-            while p.peek()[1] != 'to': p.next()
+            while p.peek()[1] != 'to':
+                if p.done(): raise Unsupported('invoke without normal destination')
+                p.next()
             p.expect('to'); p.expect('label'); normal = p.next()[1]
         d = s.defreg(dest, rt) if dest else None
         s.call(callee, rt, args, d)
@@ -1450,6 +1464,65 @@ class FnEmitter:
             for i in range(N):
                 s.emit('%s.e[%d] = %s.e[%s.e[%d] & %d];' % (d, i, a, ix, i, N - 1))
             return
+        m = re.match(r'llvm\.x86\.(?:sse2?|avx|avx512)\.(min|max)\.(ps|pd|ss|sd)(\.256|\.512)?$', name)
+        if m:
+            # Intel SDM MINPS/MAXPS: dst = (src1 < src2) ? src1 : src2  (resp. >), ordered compare: a NaN operand or two
+            # zeros give src2; the scalar forms (ss/sd) act on lane 0 and copy the upper lanes of src1.
+            # (the .512 forms carry a rounding/SAE operand that does not change the result)
+            ty = T[0]; st = s.scalar_ty(ty)
+            a = s.mat(A[0], ty); b = s.mat(A[1], ty)
+            pred = 'olt' if m.group(1) == 'min' else 'ogt'
+            for i in range(ty.n):
+                x, y = s.lane(a, ty, i), s.lane(b, ty, i)
+                if m.group(2) in ('ss', 'sd') and i > 0:
+                    s.emit('%s = %s;' % (s.lane(d, ty, i), x))
+                else:
+                    s.emit('%s = FCMP_%s_%d(%s, %s) ? %s : %s;' % (s.lane(d, ty, i), pred, st.bits, x, y, x, y))
+            return
+        m = re.match(r'llvm\.x86\.(?:sse41\.dpps|sse41\.dppd|avx\.dp\.ps\.256)$', name)
+        if m and rawargs[2][1][0] == 'iconst':
+            # Intel SDM DPPS/DPPD (per 128-bit lane): temp[j] = imm[4+j] ? a[j]*b[j] : +0.0;
+            # sum = (temp3 + temp2) + (temp1 + temp0)  [DPPD: temp1 + temp0];  dst[j] = imm[j] ? sum : +0.0
+            ty = T[0]; st = ty.elem; bts = st.bits; w = 128 // bts; imm = rawargs[2][1][1] & 255
+            a = s.mat(A[0], ty); b = s.mat(A[1], ty)
+            for base in range(0, ty.n, w):
+                tmp = ['FMUL_%d(%s.e[%d], %s.e[%d])' % (bts, a, base + j, b, base + j) if (imm >> (4 + j)) & 1 else '((u%d)0)' % bts for j in range(w)]
+                if w == 4: sm = 'FADD_%d(FADD_%d(%s, %s), FADD_%d(%s, %s))' % (bts, bts, tmp[3], tmp[2], bts, tmp[1], tmp[0])
+                else: sm = 'FADD_%d(%s, %s)' % (bts, tmp[1], tmp[0])
+                t = s.tmp('u%d' % bts); s.emit('%s = %s;' % (t, sm))
+                for j in range(w):
+                    s.emit('%s.e[%d] = %s;' % (d, base + j, t if (imm >> j) & 1 else '(u%d)0' % bts))
+            return
+        m = re.match(r'llvm\.x86\.(?:sse3|avx)\.(hadd|hsub)\.(ps|pd)(\.256)?$', name)
+        if m:
+            # Intel SDM HADDPS/HADDPD (per 128-bit lane): low half from src1 pairs, high half from src2 pairs; pair = x[2k] op x[2k+1]
+            ty = T[0]; st = ty.elem; bts = st.bits; w = 128 // bts
+            a = s.mat(A[0], ty); b = s.mat(A[1], ty)
+            mac = 'FADD' if m.group(1) == 'hadd' else 'FSUB'
+            for base in range(0, ty.n, w):
+                for j in range(w):
+                    src = a if j < w // 2 else b
+                    k = base + 2 * (j % (w // 2))
+                    s.emit('%s.e[%d] = %s_%d(%s.e[%d], %s.e[%d]);' % (d, base + j, mac, bts, src, k, src, k + 1))
+            return
+        m = re.match(r'llvm\.x86\.(?:sse2|avx2|avx512)\.(psrai|psrli|pslli)\.(w|d|q)(\.128|\.256|\.512)?$', name)
+        if m:
+            # Intel SDM PSRAW/D/Q, PSRLW/D/Q, PSLLW/D/Q with an i32 count: every lane shifted by the same count;
+            # count > bits-1: all sign bits (arithmetic) / zero (logical)
+            if em.atoms: raise Unsupported("intrinsic %s in ATOMS mode" % name)
+            ty = T[0]; st = ty.elem; bts = st.bits; ct = em.cty(st)
+            a = s.mat(A[0], ty)
+            ck = s.tmp('u32'); s.emit('%s = (u32)(%s);' % (ck, A[1]))
+            for i in range(ty.n):
+                x = '%s.e[%d]' % (a, i)
+                if m.group(1) == 'psrai':
+                    sx = em.sext_expr(x, st, 64)
+                    s.emit('%s.e[%d] = (%s > %du) ? ((%s < 0) ? (%s)~(%s)0 : (%s)0) : (%s)(%s >> %s);' % (d, i, ck, bts - 1, sx, ct, ct, ct, ct, sx, ck))
+                elif m.group(1) == 'psrli':
+                    s.emit('%s.e[%d] = (%s > %du) ? (%s)0 : (%s)(%s >> %s);' % (d, i, ck, bts - 1, ct, ct, x, ck))
+                else:
+                    s.emit('%s.e[%d] = (%s > %du) ? (%s)0 : (%s)(%s << %s);' % (d, i, ck, bts - 1, ct, ct, x, ck))
+            return
         raise Unsupported("intrinsic %s" % name)
 
 
@@ -1498,6 +1571,9 @@ EXTERNALS = {
     '_ZdaPv': 'VERIF_operator_delete',
     'malloc': 'VERIF_operator_new',
     'abort': 'VERIF_abort', 'exit': 'VERIF_exit',
+    '__cxa_begin_catch': 'VERIF_cxa_begin_catch', '__cxa_end_catch': 'VERIF_cxa_end_catch', '__cxa_rethrow': 'VERIF_cxa_rethrow',
+    '_ZSt9terminatev': 'VERIF_abort', '__clang_call_terminate': 'VERIF_abort_p',
+    'abs': 'VERIF_abs_i32', 'labs': 'VERIF_abs_i64', 'llabs': 'VERIF_abs_i64',   # defined in mode_sym.h / mode_uf.h only (not typed for ATOMS)
     'sqrtf': 'FSQRT_32', 'sqrt': 'FSQRT_64',
     'fabsf': 'FABS_32', 'fabs': 'FABS_64',
     'powf': 'FPOW_32', 'pow': 'FPOW_64', 'atan2f': 'FATAN2_32', 'atan2': 'FATAN2_64',
